@@ -406,3 +406,28 @@ def fs_ops(e, c, a):
             return err(io_err("ENOENT"))
         fs.files[q] = fs.files.pop(p); return ok(UNIT)
     return ok(UNIT)
+
+
+@model(r" as (std::io::)?BufRead>::(read_until|read_line|fill_buf|consume|lines)$")
+def bufread_ops(e, c, a):
+    src = _source(e, a[0]); m = c.rsplit("::", 1)[1]
+    if m == "read_until":
+        delim, buf = a[1], e.load(a[2])
+        n = 0
+        while True:
+            got = src.read(e, 1)
+            if not got:
+                return ok(usize(n))
+            buf.e.append(got[0]); n += 1
+            if e.branch(e.binop("Eq", got[0], delim)):
+                return ok(usize(n))
+    if m == "read_line":
+        buf = e.load(a[1]); n = 0
+        while True:
+            got = src.read(e, 1)
+            if not got:
+                return ok(usize(n))
+            buf.e.append(got[0]); n += 1
+            if e.branch(e.binop("Eq", got[0], Int(8, 0, 10))):
+                return ok(usize(n))
+    raise Unsupported(c)
